@@ -25,6 +25,8 @@ PREFIX = "C01"
 
 
 def simplify(case):
+    if "calls" not in case:
+        return
     for i, call in enumerate(case["calls"]):
         for j, it in enumerate(call["items"]):
             if len(it[0]) > 2:
@@ -196,10 +198,67 @@ def run_threaded(case, P):
     return res
 
 
+def run_ack_roleswap(case, P):
+    """ACK payloads on both ends: the receiver pre-loads k ACK payloads, the transmitter sends m < k payloads (each answered
+    with one of them), then the roles are swapped and the former receiver sends an ordinary payload: the former
+    transmitter must read exactly that payload - the unused ACK payloads are not data"""
+    res = Result()
+    lk = Link(case.get("drv", "full"), case.get("peer", "full"), mcu=case.get("mcu"))
+    sim, T, R, tx, rx = lk.sim, lk.T, lk.R, lk.tx, lk.rx
+    a = unhex(case["a0"])
+    for r in (tx, rx):
+        r.channel = 76
+        r.ack = True
+        r.arc = 3
+    rx.open_rx_pipe(0, a)
+    rx.listen = True
+    tx.open_tx_pipe(a)
+    tx.listen = False
+    sim.advance(500 * US)
+    acks = [bytes([0xA0 + i]) * (1 + i) for i in range(case["k"])]
+    sim.horizon = sim.now + 2000 * MS
+    try:
+        for ap in acks:
+            rx.load_ack(ap, 0)
+        for i in range(case["m"]):
+            got = tx.send(bytes([0x10 + i]) * 3)
+            if not isinstance(got, (bytes, bytearray)) or bytes(got) != acks[i]:
+                res.fail(P + "/ack-payload-result", "send() %d returned %r, the peer had loaded %r" % (i, got, acks[i]))
+            sim.advance(300 * US)
+            if not rx.available() or bytes(rx.read()) != bytes([0x10 + i]) * 3:
+                res.fail(P + "/received-payloads-differ", "payload %d did not arrive with ACK payloads enabled" % i)
+        # role swap
+        tx.open_rx_pipe(0, a)
+        tx.listen = True
+        rx.listen = False
+        rx.open_tx_pipe(a)
+        sim.advance(300 * US)
+        reply = unhex(case["reply"])
+        r2 = rx.send(reply)
+        sim.advance(500 * US)
+        back = []
+        for _ in range(5):
+            if not tx.available():
+                break
+            back.append(bytes(tx.read()))
+        if back != [reply]:
+            res.fail(P + "/unused-ack-payloads-sent-as-data", "after the role swap the former receiver sent %r; the other end read %r (%d of %d pre-loaded "
+                     "ACK payloads had been used; send() returned %r)" % (reply, back, case["m"], case["k"], r2))
+    except SimHorizon:
+        res.fail(P + "/send-does-not-terminate", "ACK-payload role swap")
+    except Exception as e:  # noqa: BLE001
+        res.fail(exc_signature(P + "/raises", e), repr(e))
+    res.nontrivial = case["m"] < case["k"]
+    res.label("ack-payload-role-swap")
+    return res
+
+
 def run_case(case, prefix=None):
     P = prefix or PREFIX
     if case.get("threaded"):
         return run_threaded(case, P)
+    if case.get("ack_roleswap"):
+        return run_ack_roleswap(case, P)
     res = Result()
     lk = Link(case.get("drv", "full"), case.get("peer", "full"), mcu=case.get("mcu"))
     sim, T, R, tx, rx = lk.sim, lk.T, lk.R, lk.tx, lk.rx
@@ -539,7 +598,18 @@ def threaded_strategy(drv="full", peer="full"):
     return case()
 
 
+def _ack_roleswap_cases(drv="full", peer="full"):
+    def gen():
+        for k in (1, 2, 3):
+            for m in range(0, k + 1):
+                for reply in ("5a", "c3" * 32, "0102030405"):
+                    for spi in (8, 100):
+                        yield {"ack_roleswap": True, "drv": drv, "peer": peer, "k": k, "m": m, "reply": reply, "a0": "a1b2c3d4e5",
+                               "mcu": {"spi": spi, "jit": 0, "seed": k}}
+    return gen
+
+
 def parts(tier):
     if tier == "quick":
-        return [Part("generated", "gen", strategy, n=3000), Part("long-lists-threaded-receiver", "gen", threaded_strategy, n=400)]
-    return [Part("generated", "gen", strategy, n=150000), Part("long-lists-threaded-receiver", "gen", threaded_strategy, n=5000)]
+        return [Part("ack-payload-role-swap", "enum", _ack_roleswap_cases(), exhaustive=True), Part("generated", "gen", strategy, n=3000), Part("long-lists-threaded-receiver", "gen", threaded_strategy, n=400)]
+    return [Part("ack-payload-role-swap", "enum", _ack_roleswap_cases(), exhaustive=True), Part("generated", "gen", strategy, n=150000), Part("long-lists-threaded-receiver", "gen", threaded_strategy, n=5000)]
